@@ -47,6 +47,11 @@ they arise as `x - x`): `x/0 = ±Inf` by the sign of `x`, `0/0 = NaN`. -/
 def fdiv (n d : Rat) : FQ :=
   if d = 0 then (if 0 < n then .pinf else if n < 0 then .ninf else .nan) else .fin (n / d)
 
+/-- `n / d` with the exact quotient rounded by `rnd` (used by the regenerated `GenR` definitions, where
+every float `-` and `/` is rounded; zero denominators as in `fdiv`) -/
+def fdivR (rnd : Rat → Rat) (n d : Rat) : FQ :=
+  if d = 0 then (if 0 < n then .pinf else if n < 0 then .ninf else .nan) else .fin (rnd (n / d))
+
 /-- IEEE `==` -/
 def FQ.eq : FQ → FQ → Bool
   | .fin a, .fin b => decide (a = b)
@@ -110,9 +115,13 @@ def Bounds.extendPoint (b : Bounds) (p : P) : Bounds :=
   ⟨b.minX.min (.fin p.x), b.minY.min (.fin p.y), b.maxX.max (.fin p.x), b.maxY.max (.fin p.y)⟩
 /-- `(*Bounds).extendPoints` -/
 def Bounds.extendPoints (b : Bounds) (ps : List P) : Bounds := ps.foldl Bounds.extendPoint b
-/-- `(*Bounds).Overlaps` -/
+/-- `(*Bounds).Empty`: `b.Max.X < b.Min.X || b.Max.Y < b.Min.Y` -/
+def Bounds.empty (b : Bounds) : Bool := !(b.minX.le b.maxX) || !(b.minY.le b.maxY)
+/-- `(*Bounds).Overlaps` (since `fix: Bounds.Overlaps is false when either box is empty`):
+`!b.Empty() && !b2.Empty() && b.Min.X <= b2.Max.X && b.Min.Y <= b2.Max.Y && b.Max.X >= b2.Min.X && b.Max.Y >= b2.Min.Y` -/
 def Bounds.overlaps (b b2 : Bounds) : Bool :=
-  b.minX.le b2.maxX && b.minY.le b2.maxY && b2.minX.le b.maxX && b2.minY.le b.maxY
+  !b.empty && !b2.empty &&
+  (b.minX.le b2.maxX && b.minY.le b2.maxY && b2.minX.le b.maxX && b2.minY.le b.maxY)
 
 /-- `area.go: (Polygon).ringBounds` -/
 def ringBounds (pg : Poly) : List Bounds := pg.map fun r => newBounds.extendPoints r
